@@ -296,7 +296,7 @@ func m1InternalField(f *types.Var) string {
 
 // RuleM1: hand-written MarshalJSON methods serialise every field.
 func RuleM1(c *Ctx) {
-	sc := c.Run.Begin("M1", "every field of a catalog type with a hand-written MarshalJSON is read somewhere in that method's call tree (same-type helpers included), and every exported field of a tag-serialised struct carries a json tag; a field that is declared but never written out is silently lost", 30)
+	sc := c.Run.Begin("M1", "every field of a catalog type with a hand-written MarshalJSON is read somewhere in that method's call tree (same-type helpers included), and every exported field of a tag-serialised struct carries a json tag; a field that is declared but never written out is silently lost", 2)
 	defer sc.End()
 	pk := c.P.Pkg("catalog")
 	if pk == nil {
@@ -402,7 +402,7 @@ func RuleM1(c *Ctx) {
 
 // RuleTG: tags and interactions reference each other, tags resolve, at least one tag.
 func RuleTG(c *Ctx) {
-	sc := c.Run.Begin("TG", "every function that creates an interaction and stores it obtains its tag names from the tag resolver with the same id, appends every returned name, and has no error exit between resolving and storing (TG1); the resolver registers the interaction in each tag it returns (mutual reference); tag names come only from tags fetched from the Tags collection or created and stored by the path-tag helper (TG2); the tag list is never empty (TG3)", 6)
+	sc := c.Run.Begin("TG", "every function that creates an interaction and stores it obtains its tag names from the tag resolver with the same id, appends every returned name, and has no error exit between resolving and storing (TG1); the resolver registers the interaction in each tag it returns (mutual reference); tag names come only from tags fetched from the Tags collection or created and stored by the path-tag helper (TG2); the tag list is never empty (TG3)", 2)
 	defer sc.End()
 	pk := c.P.Pkg("catalog")
 	inter := c.Field("catalog", "Catalog", "Interactions")
@@ -412,23 +412,82 @@ func RuleTG(c *Ctx) {
 		return
 	}
 	info := pk.TypesInfo
-	// the resolver: the Catalog method returning ([]TagName, *JApiError)
+	// the resolver, by role: the Catalog method that takes the interaction's id and, in one
+	// loop over the chosen tags, calls a method of *Tag (registers the id in the tag)
 	tagNameT := c.Named("catalog", "TagName")
+	_ = tagNameT
+	tagNamed := c.Named("catalog", "Tag")
+	idIface := c.Named("catalog", "InteractionID")
 	var resolver *types.Func
 	cat := c.Named("catalog", "Catalog")
+	nRes := 0
 	for i := 0; i < cat.NumMethods(); i++ {
 		m := cat.Method(i)
+		md := c.P.Decl(m)
+		if md == nil {
+			continue
+		}
 		sig := m.Type().(*types.Signature)
-		if sig.Results().Len() == 2 {
-			if sl, ok := sig.Results().At(0).Type().(*types.Slice); ok && types.Identical(sl.Elem(), tagNameT) {
-				resolver = m
+		takesID := false
+		for j := 0; j < sig.Params().Len(); j++ {
+			if idIface != nil && types.Identical(sig.Params().At(j).Type(), idIface) {
+				takesID = true
 			}
 		}
+		if !takesID {
+			continue
+		}
+		regs := false
+		ast.Inspect(md.Body, func(x ast.Node) bool {
+			rs, ok := x.(*ast.RangeStmt)
+			if !ok {
+				return true
+			}
+			ast.Inspect(rs.Body, func(y ast.Node) bool {
+				if call, ok := y.(*ast.CallExpr); ok {
+					if g := Callee(info, call); g != nil && recvNamedOf(g) == tagNamed && tagNamed != nil {
+						regs = true
+					}
+				}
+				return true
+			})
+			return true
+		})
+		if regs {
+			resolver = m
+			nRes++
+		}
 	}
-	if resolver == nil {
-		sc.Undecided("resolver", "-", "unresolved anchor: the Catalog method returning []TagName")
+	if resolver == nil || nRes != 1 {
+		sc.Undecided("resolver", "-", "unresolved anchor: the Catalog method that registers an interaction id in its tags")
 		return
 	}
+	// shape of the resolver: does it append the names to an interaction it is given?
+	rfd0 := c.P.Decl(resolver)
+	appendParam := -1 // index of the resolver's parameter whose tag-name appender is called in the loop
+	ast.Inspect(rfd0.Body, func(x ast.Node) bool {
+		rs, ok := x.(*ast.RangeStmt)
+		if !ok {
+			return true
+		}
+		ast.Inspect(rs.Body, func(y ast.Node) bool {
+			call, ok := y.(*ast.CallExpr)
+			if !ok {
+				return true
+			}
+			g := Callee(info, call)
+			if g == nil || !strings.Contains(strings.ToLower(g.Name()), "tag") || recvNamedOf(g) == tagNamed {
+				return true
+			}
+			if rid, ok := ast.Unparen(Recv(call)).(*ast.Ident); ok {
+				if idx := paramIndexOf(info, rfd0, info.ObjectOf(rid)); idx >= 0 {
+					appendParam = idx
+				}
+			}
+			return true
+		})
+		return true
+	})
 	// TG1: creators
 	n := 0
 	c.eachCall(func(cs callSite) {
@@ -453,7 +512,15 @@ func RuleTG(c *Ctx) {
 				return true
 			})
 		})
-		if rcall == nil || len(rcall.Args) < 2 || !cfgx.SameExpr(info, rcall.Args[1], id) {
+		sameID := false
+		if rcall != nil {
+			for _, a := range rcall.Args {
+				if cfgx.SameExpr(info, a, id) {
+					sameID = true
+				}
+			}
+		}
+		if rcall == nil || !sameID {
 			sc.Violation(key, c.P.Pos(cs.Call.Pos()), "the interaction is stored without its tags having been resolved with the same id: tag groups and interaction tags disagree")
 			return
 		}
@@ -478,6 +545,12 @@ func RuleTG(c *Ctx) {
 			}
 			return true
 		})
+		// or the resolver appends them itself, to the very interaction that is stored here
+		if !appended && appendParam >= 0 && appendParam < len(rcall.Args) && len(cs.Call.Args) == 2 {
+			if cf.SameResolved(rcall.Args[appendParam], cs.Call.Args[1]) {
+				appended = true
+			}
+		}
 		// no return between the resolver's error check and the Set
 		exits := 0
 		ast.Inspect(cs.Body, func(x ast.Node) bool {
@@ -499,28 +572,34 @@ func RuleTG(c *Ctx) {
 	// the resolver registers the id in each tag it returns
 	rfd := c.P.Decl(resolver)
 	registers := false
+	regOver, appOver := map[string]bool{}, map[string]bool{}
 	ast.Inspect(rfd.Body, func(x ast.Node) bool {
 		rs, ok := x.(*ast.RangeStmt)
 		if !ok {
 			return true
 		}
-		reg, app := false, false
+		over := types.ExprString(rs.X)
 		ast.Inspect(rs.Body, func(y ast.Node) bool {
 			if call, ok := y.(*ast.CallExpr); ok {
 				if g := Callee(info, call); g != nil && recvNamedOf(g) != nil && recvNamedOf(g).Obj().Name() == "Tag" {
-					reg = true
+					regOver[over] = true
 				}
 				if id, ok := call.Fun.(*ast.Ident); ok && id.Name == "append" {
-					app = true
+					appOver[over] = true
+				}
+				if g := Callee(info, call); g != nil && appendParam >= 0 && strings.Contains(strings.ToLower(g.Name()), "tag") && recvNamedOf(g) != tagNamed {
+					appOver[over] = true
 				}
 			}
 			return true
 		})
-		if reg && app {
-			registers = true
-		}
 		return true
 	})
+	for over := range regOver {
+		if appOver[over] {
+			registers = true // one loop, or two loops over the same list of tags
+		}
+	}
 	if registers {
 		sc.Holds("TG1:resolver", c.P.Pos(rfd.Pos()), "for every tag: the interaction id is registered in the tag and the tag's name is returned (one loop)")
 	} else {
@@ -759,60 +838,98 @@ func RuleTP1(c *Ctx) {
 		if !ok || !types.Identical(pt.Elem(), tagT) {
 			return
 		}
-		// candidates: the function with if-statements whose init calls a "get ... Tags directive" helper
-		type src struct {
-			pos  int
-			kind string
-		}
-		var srcs []src
-		for i, st := range fd.Body.List {
-			switch s := st.(type) {
-			case *ast.IfStmt:
-				if as, ok := s.Init.(*ast.AssignStmt); ok && len(as.Rhs) == 1 {
-					if call, ok := as.Rhs[0].(*ast.CallExpr); ok {
-						if g := Callee(info, call); g != nil {
-							gd := c.P.Decl(g)
-							kind := ""
-							if gd != nil {
-								usesParent := false
-								ast.Inspect(gd.Body, func(x ast.Node) bool {
-									if sel, ok := x.(*ast.SelectorExpr); ok && sel.Sel.Name == "Parent" {
-										usesParent = true
-									}
-									return true
-								})
-								if usesParent {
-									kind = "parent"
-								} else {
-									kind = "own"
-								}
-							}
-							// the then-branch must return
-							if len(s.Body.List) > 0 {
-								if _, isRet := s.Body.List[len(s.Body.List)-1].(*ast.ReturnStmt); isRet && kind != "" {
-									srcs = append(srcs, src{i, kind})
-								}
-							}
-						}
-					}
-				}
-			case *ast.ReturnStmt:
-				srcs = append(srcs, src{i, "path"})
+		// the three sources: a helper that finds the interaction's own Tags child (no use of
+		// Parent), a helper that finds the enclosing URL's Tags (uses Parent), and the return
+		// that builds the path tag (a composite literal). Precedence is decided by dataflow:
+		// the parent helper is consulted only where the own helper's result was nil, and the
+		// path tag is returned only where a variable holding the parent helper's result was nil.
+		dirT := c.Named("directive", "Directive")
+		var ownCall, parentCall *ast.CallExpr
+		ast.Inspect(fd.Body, func(x ast.Node) bool {
+			call, ok := x.(*ast.CallExpr)
+			if !ok {
+				return true
 			}
-		}
-		if len(srcs) < 3 {
+			g := Callee(info, call)
+			gd := c.P.Decl(g)
+			if g == nil || gd == nil || c.P.PkgOfDecl(gd) != pk {
+				return true
+			}
+			gsig := g.Type().(*types.Signature)
+			if gsig.Results().Len() != 1 {
+				return true
+			}
+			if rp, ok := gsig.Results().At(0).Type().(*types.Pointer); !ok || dirT == nil || !types.Identical(rp.Elem(), dirT) {
+				return true
+			}
+			usesParent := false
+			ast.Inspect(gd.Body, func(y ast.Node) bool {
+				if sel, ok := y.(*ast.SelectorExpr); ok && sel.Sel.Name == "Parent" {
+					usesParent = true
+				}
+				return true
+			})
+			if usesParent {
+				parentCall = call
+			} else {
+				ownCall = call
+			}
+			return true
+		})
+		var pathRet *ast.ReturnStmt
+		ast.Inspect(fd.Body, func(x ast.Node) bool {
+			if ret, ok := x.(*ast.ReturnStmt); ok && len(ret.Results) == 2 {
+				if _, isLit := ast.Unparen(ret.Results[0]).(*ast.CompositeLit); isLit {
+					pathRet = ret
+				}
+			}
+			return true
+		})
+		if ownCall == nil || parentCall == nil || pathRet == nil {
 			return
 		}
 		found = true
-		var order []string
-		for _, s := range srcs {
-			order = append(order, s.kind)
+		cf := c.CFG(pk, fd.Body)
+		// variables assigned from a call
+		holders := func(call *ast.CallExpr) map[types.Object]bool {
+			out := map[types.Object]bool{}
+			ast.Inspect(fd.Body, func(x ast.Node) bool {
+				as, ok := x.(*ast.AssignStmt)
+				if !ok || len(as.Rhs) != 1 || ast.Unparen(as.Rhs[0]) != ast.Expr(call) {
+					return true
+				}
+				if id, ok := as.Lhs[0].(*ast.Ident); ok {
+					out[info.ObjectOf(id)] = true
+				}
+				return true
+			})
+			return out
 		}
+		nilOf := func(vars map[types.Object]bool) func(cfgx.Fact) bool {
+			return func(fa cfgx.Fact) bool {
+				be, ok := ast.Unparen(fa.Expr).(*ast.BinaryExpr)
+				if !ok || !((be.Op == token.EQL && fa.Truth) || (be.Op == token.NEQ && !fa.Truth)) {
+					return false
+				}
+				x := be.X
+				if isNilIdentExpr(info, x) {
+					x = be.Y
+				} else if !isNilIdentExpr(info, be.Y) {
+					return false
+				}
+				id, ok := ast.Unparen(x).(*ast.Ident)
+				return ok && vars[info.ObjectOf(id)]
+			}
+		}
+		ownVars, parentVars := holders(ownCall), holders(parentCall)
 		key := fd.Name.Name
-		if strings.Join(order, ",") == "own,parent,path" {
-			sc.Holds(key, c.P.Pos(fd.Pos()), "sources consulted in the order own Tags, enclosing URL's Tags, path tag; each returns when present")
-		} else {
-			sc.Violation(key, c.P.Pos(fd.Pos()), "tag sources are consulted in the order "+strings.Join(order, ",")+" instead of own,parent,path: explicit Tags no longer win over the URL's, or the automatic tag is used although Tags are declared")
+		switch {
+		case !cf.MustAt(parentCall, nilOf(ownVars), nil, nil):
+			sc.Violation(key, c.P.Pos(parentCall.Pos()), "the enclosing URL's Tags are consulted without the interaction's own Tags having been found absent: explicit Tags no longer win over the URL's")
+		case !cf.MustAt(pathRet, nilOf(parentVars), nil, nil):
+			sc.Violation(key, c.P.Pos(pathRet.Pos()), "the automatic path tag is returned without the own and the URL-level Tags having been found absent: the automatic tag is used although Tags are declared")
+		default:
+			sc.Holds(key, c.P.Pos(fd.Pos()), "sources consulted in the order own Tags, enclosing URL's Tags, path tag: each later source only where the earlier ones were absent")
 		}
 	})
 	if !found {
@@ -822,7 +939,7 @@ func RuleTP1(c *Ctx) {
 
 // RuleRV1: the validation stage looks at every response, not at a chosen one.
 func RuleRV1(c *Ctx) {
-	sc := c.Run.Begin("RV1", "every loop over an interaction's Responses in core visits all of them (no success return or break inside), and in the validation stage every use of Responses is such a loop (a check that indexes one response lets the others through unchecked)", 4)
+	sc := c.Run.Begin("RV1", "every loop over an interaction's Responses in core visits all of them (no success return or break inside), and in the validation stage every use of Responses is such a loop (a check that indexes one response lets the others through unchecked)", 2)
 	defer sc.End()
 	pk := c.P.Pkg("core")
 	resp := c.Field("catalog", "HTTPInteraction", "Responses")
